@@ -165,7 +165,11 @@ def eval_case(case, want, dtypes=("float64", "float32"), variant=0):
                     gx_d = gx.double()
                     wdt = right - left
                     back = (gx_d - g.double()).abs()
-                    if float(back.max()) > 2e-2 * wdt:
+                    # (where the exact slope is tiny the image cannot tell neighbouring inputs apart in this dtype:
+                    # rounding of the image, divided by the smallest exact slope, is not the inverse's doing)
+                    dmin = min(float(o["d"]) for _, o in ins)
+                    cond = 16 * float(torch.finfo(dt).eps) * max(abs(top), abs(bottom), 1.0) / max(dmin, 1e-300)
+                    if float(back.max()) > 2e-2 * wdt + cond:
                         i = int(back.argmax())
                         add("inverse_not_monotone", "inverse(f(%.9g)) = %.9g: the inverse leaves the pre-image by %.3g (box width %.3g)" % (float(g[i]), float(gx[i]), float(back[i]), wdt), **tag)
                     elif (variant == 3 or dtn == "float64") and not par["tails"] or (variant == 3 and par["tails"]):
